@@ -1164,7 +1164,7 @@ func first(a, _ []byte) []byte { return a }
 //@   opt extent on
 //@   requires WF1in_collation(t)
 //@   ensures[scratch_bounded] scratchLen(t.cok.buf) < 2147483648
-//@   ensures[pure] frame()
+//@   ensures[pure] frameExcept("collationSortedTree.cok.src")
 
 //@ func (*collationSortedTree[K,V]).Range
 //@   opt bind K=string
@@ -1173,7 +1173,7 @@ func first(a, _ []byte) []byte { return a }
 //@   opt extent on
 //@   requires WF1in_collation(t)
 //@   ensures[scratch_bounded] scratchLen(t.cok.buf) < 2147483648
-//@   ensures[pure] frame()
+//@   ensures[pure] frameExcept("collationSortedTree.cok.src")
 
 //@ func (*{unsigned,signed,float}SortedTree[K,V]).Range
 //@   opt kind $KIND
